@@ -474,6 +474,17 @@ func genC05(c *Ctx) {
 					if pt > now {
 						c.Violate("pt-after-now", fmt.Sprintf("publishTime %d ms is later than the request instant %d", pt, now), []string{line}, nil)
 					}
+					// publishTime names the instant of the most recent change: the MPD requested *at* that instant is already this one
+					if pt < now && pt >= int64(cf.startS)*1000 && c.Rng.Intn(3) == 0 {
+						r2 := doLive("GET", mpdURL(a.AssetPath, cs, name, strconv.FormatInt(pt, 10)))
+						if m2, err := parseMPD(r2.body); err == nil && r2.code == 200 {
+							c.Count("pt-instant-checked")
+							if pt2, _ := dateToMS(m2.PublishTime); pt2 != pt || canonMPDContent(m2) != raw {
+								c.Violate("pt-not-change-instant", fmt.Sprintf("the MPD at now=%d has publishTime %d, but the MPD requested at %d has publishTime %d / other content: %d is not the instant of the last change", now, pt, pt, pt2, pt),
+									[]string{line, fmt.Sprintf("mpd %s %s %s %d", a.AssetPath, cs, name, pt)}, nil)
+							}
+						}
+					}
 					if prev != nil {
 						ppt, _ := dateToMS(prev.PublishTime)
 						rp := []string{prevLine, line}
